@@ -464,6 +464,110 @@ func c16Scenarios(thorough bool) []vScn {
 		return root, judge
 	}}
 	scns = append(scns, s7)
+	// S8: rate limiting is switched on while a request holds the update in its drain; a call
+	// that arrives on another open connection after the drain began can only be admitted
+	// after the update, so the new limiter must judge it
+	scns = append(scns, vScn{name: "S8-ratelimit-enabled-while-call-arrives-mid-drain", horizon: 30 * time.Minute, capD: 2, build: func() (func(), func(*vsched.Result) (string, []vScnBad)) {
+		var summaries []string
+		var problem string
+		finished := false
+		root := func() {
+			vsched.SetQuiet(true)
+			e, err := vNewEnv(ExportOptions{AttrCacheTimeout: 1, MaxWorkers: 1}, c16Plant)
+			vMust(err, "env")
+			rootFH, err := e.mnt("/")
+			vMust(err, "mnt")
+			gate := vsched.NewChan[struct{}](1)
+			held, armed := false, false
+			e.fs.Hook = func(op *recfs.Op) error {
+				if !held && armed { // the first backend call of R1 (the only request in flight) waits for the harness
+					held = true
+					gate.Recv()
+				}
+				return nil
+			}
+			vsched.SetQuiet(false)
+			armed = true
+			connA, connB := newSConn("10.0.0.1", 900), newSConn("10.0.0.2", 901)
+			vsched.GoNamed("connA", func() { e.srv.handleConnectionWithRecordMarking(connA, e.h) })
+			vsched.GoNamed("connB", func() { e.srv.handleConnectionWithRecordMarking(connB, e.h) })
+			callB := func(xid uint32) string {
+				rec, ok := connB.reply()
+				if !ok {
+					return "connection-closed"
+				}
+				rp, err := wire.ParseReply(rec)
+				if err != nil || rp.Xid != xid {
+					return "malformed"
+				}
+				if rp.Denied {
+					return "denied"
+				}
+				return fmt.Sprintf("accepted(%d)", rp.AcceptStat)
+			}
+			vsched.GoNamed("driver", func() {
+				vsched.Advance(time.Microsecond)
+				var a wire.Enc
+				a.FH(rootFH).Str("f")
+				connA.feed(wire.Record(wire.Call(1, wire.ProgNFS, 3, wire.LOOKUP, vCredSys(0, 0, nil), a.B)))
+				vsched.SleepQuiescent(time.Millisecond) // R1 is inside the backend, holding its admission
+				if !held { // only when a timer was fired early (connection A timed out before R1 ran): nothing to judge
+					summaries = append(summaries, "r1-never-ran")
+					finished = true
+					gate.SendNoPoint(struct{}{})
+					return
+				}
+				vsched.GoNamed("updU", func() {
+					cfg := RateLimiterConfig{GlobalRequestsPerSecond: 1000, PerIPRequestsPerSecond: 0, PerIPBurstSize: 1, CleanupInterval: time.Hour}
+					p := *e.nfs.policy.Peek()
+					p.EnableRateLimiting, p.RateLimitConfig = true, &cfg
+					if err := e.nfs.UpdatePolicyOptions(p); err != nil {
+						problem = err.Error()
+					}
+				})
+				vsched.SleepQuiescent(time.Millisecond) // the update is draining
+				connB.feed(wire.Record(wire.Call(2, wire.ProgNFS, 3, 0, vCredSys(0, 0, nil), nil)))
+				vsched.SleepQuiescent(time.Millisecond) // R2 (NULL has no retry-later form) waits for the update
+				gate.Send(struct{}{})
+				summaries = append(summaries, callB(2))
+				for x := uint32(3); x <= 4; x++ {
+					connB.feed(wire.Record(wire.Call(x, wire.ProgNFS, 3, 0, vCredSys(0, 0, nil), nil)))
+					summaries = append(summaries, callB(x))
+				}
+				connA.reply()
+				connA.closeClient()
+				connB.closeClient()
+				finished = true
+			})
+		}
+		judge := func(res *vsched.Result) (string, []vScnBad) {
+			var bad []vScnBad
+			out := strings.Join(summaries, ",")
+			if problem != "" {
+				bad = append(bad, vScnBad{"update-fails", problem})
+			}
+			for _, p := range res.Panics {
+				bad = append(bad, vScnBad{"panic", p})
+			}
+			if !finished && problem == "" && !c17EarlyTimer(res) {
+				bad = append(bad, vScnBad{"call-never-answered-around-ratelimit-update", fmt.Sprintf("the client is blocked forever (replies so far: %s; blocked: %v)", out, res.Blocked)})
+				return "blocked", bad
+			}
+			// burst 1, rate 0, the clock stands still: R2 arrived after the drain began, so R2..R4 are
+			// all admitted after the update and at most one of them may pass the new limiter
+			admitted := 0
+			for _, s := range summaries {
+				if strings.HasPrefix(s, "accepted") {
+					admitted++
+				}
+			}
+			if admitted > 1 {
+				bad = append(bad, vScnBad{"call-arriving-mid-drain-escapes-new-rate-limit", fmt.Sprintf("rate limiting (per-IP burst 1, rate 0) was enabled while a request held the drain; %d of the 3 calls that arrived on another open connection after the drain began were admitted: %s", admitted, out)})
+			}
+			return out, bad
+		}
+		return root, judge
+	}})
 	// S5: rate limiting switched on at runtime must bind connections that were already open
 	scns = append(scns, vScn{name: "S5-ratelimit-on-open-connection", horizon: time.Hour, build: func() (func(), func(*vsched.Result) (string, []vScnBad)) {
 		var summaries []string
